@@ -40,6 +40,10 @@ func VH_S_Fire() {
 			pid := vx.TmplExpand(a.Str("promise_id"), a.Str("id"), vx.Itoa(occ))
 			p0, p1 := vx.Lookup(pre, "promises", pid), vx.Lookup(post, "promises", pid)
 			vx.Assert(vx.Implies(changed, p1.Present()), "C10:promise-created-in-the-same-step")
+			// and conversely: the transaction that creates this occurrence's promise (it names the schedule in its
+			// tags) is the one that advances the schedule, otherwise the occurrence would be found due again
+			mine := vx.And(vx.MapHas(p1.Map("tags"), "resonate:schedule"), vx.MapGet(p1.Map("tags"), "resonate:schedule") == a.Str("id"))
+			vx.Assert(vx.Implies(vx.And(a.Present(), occ <= t0, !p0.Present(), p1.Present(), mine), changed), "C10:schedule-advanced-with-its-promise")
 			want := a.Map("promise_tags")
 			want["resonate:schedule"] = a.Str("id")
 			want["resonate:invocation"] = "true"
